@@ -336,6 +336,7 @@ def run_batch(fmt: str, batch: Sequence[Tuple[Any, ...]], res: Dict[str, Any]) -
                 rel = 'before' if nline < lo else 'after'
                 # google / numpy: only "inside the docstring" is demanded, so owner and layout of the literal do not select different behaviour
                 wsig = (f'wrong-line/{fmt}/{kind}/{rel}/after-linesep' if pos == 'after-linesep' else
+                        f'wrong-line/{fmt}/{kind}/{rel}/{pos}' if pos.startswith('directive') else
                         f'wrong-line/{fmt}/{kind}/{rel}-the-docstring/{pos}' if fmt in ('google', 'numpy')
                         else f'wrong-line/{label}/{rel}/{laydesc}' + ('/' + pos if pos in ('li', 'fb') else ''))
                 res['violations'].append(core.violation(wsig,
